@@ -186,7 +186,10 @@ partial def ptUnitOfJson? (j : Json) : Option (PT Unit) :=
   match field? j "tup" with
   | some v => do some (PT.tup (← (← getList? v).mapM ptUnitOfJson?))
   | none => match field? j "blk" with
-    | some v => (getNat? v).map (fun n => PT.blk (List.replicate n ()))
+    | some v =>
+      match getNat? v with
+      | some n => some (PT.blk (List.replicate n (PT.leaf ())))
+      | none => do some (PT.blk (← (← getList? v).mapM ptUnitOfJson?))
     | none => match field? j "leaf" with
       | some _ => some (PT.leaf ())
       | none => none
@@ -194,10 +197,20 @@ partial def ptUnitOfJson? (j : Json) : Option (PT Unit) :=
 partial def ptJson : PT Sym → Json
   | .leaf a => jObj [("leaf", a.toJson)]
   | .tup cs => jObj [("tup", jArr (cs.map ptJson))]
-  | .blk bs => jObj [("blk", jArr (bs.map Sym.toJson))]
+  | .blk bs => jObj [("blk", jArr (bs.map ptJson))]
 
 def handler : Handler := fun op j =>
   match op with
+  | "setslice" => do
+    let self ← (← fList? j "blocks").mapM Sym.ofJson?
+    let vals ← (← fList? j "values").mapM Sym.ofJson?
+    let tab ← tabOf? j
+    let oi := fun (k : String) => match field? j k with
+      | some v => (getInt? v)
+      | none => none
+    match setSlice (envT tab) self (oi "start") (oi "stop") (oi "step") vals with
+    | .error e => some (errReply e)
+    | .ok l => some (reply tab (valJson (.blk l)) l)
   | "getslice" => do        -- indices (into a list of n blocks) that x[start:stop:step] selects
     let n ← fNat? j "n"
     let oi := fun (k : String) => match field? j k with
